@@ -8,7 +8,7 @@ def run(res):
     c, ov = dc.consts(H=2, subs='Subs_Fixed', beh='Beh_C03', maxq=1, maxeid=2, clear=True)
     dc.check_and_replay(res, 'c03_h2', c, ov, depth_all=3, walks=3000)
     # three listeners (all iteration orders of one dispatch), only h1 misbehaves
-    c, ov = dc.consts(H=3, subs='Subs_Fixed', beh='Beh_C03_H1', maxq=1, maxeid=2, clear=False)
+    c, ov = dc.consts(H=3, subs='Subs_Fixed', beh='Beh_C03_H1', maxq=1, maxeid=2 if thorough else 1, clear=False)
     dc.check_and_replay(res, 'c03_h3', c, ov, depth_all=0, walks=2000)
     dc.trace_validate(res, 1000 if thorough else 100, 50)
     dc.repo_tests_validate(res)
